@@ -99,9 +99,9 @@ PROPS["C06"] = {
     "parts": [{"name": "incremental", "src": "c06_incremental.cpp", "quick": T(120, 30, [], 100), "thorough": T(1700, 60, [], 100)}],
 }
 PROPS["C10"] = {
-    "rule": "corridor scenes: two tall rectangles leaving a channel of width W cells (S=20) that is the only cheap passage; every set of k orthogonal connectors from x=0 to x=4 with pairwise different end rows (no shared endpoint); idealNudgingDistance in {1,4,12}; all 16 combinations of the four nudging options; optional checkpoint in the channel. Oracle: no pair of shiftable (non-end) segments of different connectors collinear and overlapping when (k-1)*d fits the channel; separated pairs in the channel at least d apart; first/last point of displayRoute equal those of route and the requested endpoints; displayRoute has no more segments than route().simplify(); every segment axis-parallel; checkpoint on the route. Non-trivial = raw routes share a middle segment.",
-    "bounds": {"quick": "k=2 x 3 distances x 16 option sets (W=1); k=3 x 5 option sets; W=2 and checkpoints x 2 option sets", "thorough": "k=3 and W=2 and checkpoints x all 16 option sets; k=4"},
-    "assumptions": ["end segments are fixed by design and are not the subject of 'wide enough'", "the channel is 'wide enough' iff (k-1)*idealNudgingDistance <= channel width"],
+    "rule": "corridor scenes: two tall rectangles leaving a channel of width W cells (S=20) that is the only cheap passage; every set of k orthogonal connectors from x=0 to x=4 with pairwise different end rows (no shared endpoint); idealNudgingDistance in {1,4,12}; all 16 combinations of the four nudging options; optional checkpoint in the channel. Oracle: no pair of shiftable (non-end) segments of different connectors collinear and overlapping when the channel is wide enough for d (decided exactly by a reference placement search, channelFeasible(), that mirrors the limits the library applies: fixed end/checkpoint segments, channel walls, S/Z-bend limits); separated pairs in the channel at least d apart where the full distance is feasible in the order the library chose and nothing but the walls limits the segments, and at least d/10 (the smallest reduced distance) otherwise; first/last point of displayRoute equal those of route and the requested endpoints; displayRoute has no more segments than route().simplify(); every segment axis-parallel; checkpoint on the route. Non-trivial = raw routes share a middle segment.",
+    "bounds": {"quick": "k=2 and k=3 (W=1), k=2 (W=2), k=2 with checkpoint: 3 distances x all 16 option sets; k=3 (W=2) and k=3 with checkpoint x 2 distances x 3 option sets; k=4 x 2", "thorough": "k=3 (W=2), k=3 with checkpoint, k=2 (W=3), k=2 with checkpoint (W=2): 3 distances x 16 option sets; k=4 (W=1,2), k=3 (W=3), k=3 with checkpoint (W=2): 3 distances x 4 option sets"},
+    "assumptions": ["end segments are fixed by design and are not the subject of 'wide enough'", "the channel is 'wide enough for the requested nudging distance' iff some placement of the movable in-channel segments keeps all x-overlapping pairs (not both fixed) the full distance apart within the limits the library itself imposes", "a reduced distance is never below a tenth of the requested one (the library reduces in tenths)"],
     "parts": [{"name": "nudging", "src": "c10_nudging.cpp", "quick": T(120, 20, [], 100), "thorough": T(1700, 30, [], 100)}],
 }
 PROPS["C12"] = {
